@@ -83,3 +83,55 @@ plan("C07", "c07.py", "15 action styles x 8 message APIs x traceback APIs x host
      "Trusted: API-legality preconditions (field names are str and not Eliot parameter names such as `self`; extractors return dicts whose keys are str "
      "and avoid Eliot's reserved names; destinations raise Exception subclasses), library models (time.time, uuid4, format_exception, warnings.warn "
      "do not raise), encoding assumptions. Known findings C07-F1..F4 (MemoryLogger.write formatting, stdlib bridge, exotic __module__).")
+
+plan("C05", "c05.py", "structured concurrent programs (asyncio tasks, threads, pool reuse, preserve_context, copy_context) x all / seeded schedules, on the real code",
+     "Proof under the contextvars axioms: every context-touching function (current_action, run, context(), __enter__, __exit__, start_action, startTask, "
+     "log_message) has the frame postcondition `forall c != me. CTX[c] == old(CTX[c])` and attributes new actions/messages to CTX[me] only; the "
+     "commutation lemma over those frames gives schedule independence of every per-context history; a syntactic side check (context_check.py) "
+     "shows the current action is stored nowhere but in the one ContextVar. Interleavings themselves are never executed by the verifier: the "
+     "bounded native driver enumerates schedules of small structured programs on the real code.",
+     "Trusted: contextvars semantics (a new thread starts with an empty context, an asyncio task copies its creator's context, ContextVar "
+     "operations touch the current context only) -- axioms, cross-checked natively by the driver; one owner thread per Action; encoding assumptions.",
+     side_checks=["context_check.py"])
+
+plan("C10", "c10.py", "messages over the JSON-native boundary corpus and rich types x file kinds x json_default configurations, on the real code",
+     "Proof for Eliot's own code: FileDestination.__call__ hands the file exactly one write holding dumps(message, default=json_default) + linebreak "
+     "and then exactly one flush, on every path; at most that single write has happened if anything raises; the message is not modified. "
+     "The fidelity of the encoding itself (orjson) is an assumed contract of a Rust extension: decided by the bounded differential driver only "
+     "(labelled bounded, never counted as proved). json_default and FileDestination.__new__ are not yet under contract (driver only).",
+     "Trusted/assumed: the orjson encode contract (bounded differential in drivers/c10.py), the io model of file.write/flush. "
+     "Known findings C10-F1..F4 (dependency limits of orjson).")
+
+plan("C11", "c11.py", "logging programs x 15 file-object kinds x crash points (every traced event, SIGKILL / os._exit), forked children, on the real code",
+     "Proof over the io model: FileDestination.__call__ performs exactly [write(line), flush] before returning (proved from the real source), "
+     "and the crash_prefix lemma turns that trace shape into the statement for every crash index (acknowledged lines complete and in order, at "
+     "most one fragment). The call chain Action.log/_start/finish -> ILogger.write -> Destinations.send -> destination is synchronous (plain "
+     "calls in the verified bodies). The parser half (prefixes never misreport) is decided by the bounded driver only.",
+     "Trusted: the io model (user-space buffer lost at process death, flushed bytes survive; not power loss), the reader discarding an "
+     "incomplete last line; parser behaviour on prefixes is bounded (driver), not proved.")
+
+plan("C12", "c12.py", "all histories <= 5 ops over log/add/remove/global-fields incl. >1000 buffered; line-granular two-thread hand-over schedules, on the real code",
+     "Proof for sequential histories: BufferingDestination.__call__ keeps exactly the most recent 1000 messages in order (while-loop invariant "
+     "with a decreases clause); Destinations.add installs exactly the given destinations on the first call and re-sends every buffered message "
+     "exactly once in order before returning, later calls only extend the list; remove deletes the first occurrence; addGlobalFields merges; "
+     "send merges all global fields into the delivered message. The concurrent hand-over clause is false on the unchanged tree: known finding C12-F1.",
+     "Trusted: Dest interface model, E12 ownership assumption (ownership_check.py), encoding assumptions. Concurrency: statement-granular "
+     "schedules are explored by the bounded driver only.", side_checks=["ownership_check.py"])
+
+plan("C14", "c14.py", "type definitions x conforming messages x single-point deviations x entry points x test outcomes, on the real code",
+     "Proof: _MessageSerializer.validate returns normally only if every declared field is present and its validator returned and (unless "
+     "additional fields are allowed) no key outside declared + {task_uuid, task_level, timestamp} is present -- the three names are written "
+     "literally in the contract -- and raises only for a missing / undeclared field or a raising field validator; Field.validate calls the "
+     "serializer then the extra validator; MemoryLogger.write validates a copy and records; MemoryLogger.validate re-validates every recorded "
+     "message with its own serializer; check_for_errors raises UnflushedTracebacks before validating whenever tracebacks are unflushed; "
+     "swap_logger installs and returns the previous default. capture_logging's cleanup registration is decided by the bounded driver only.",
+     "Trusted: Serializer/Validator interface models, orjson raising only Exception subclasses, unittest addCleanup semantics (driver), "
+     "encoding assumptions.", side_checks=["ownership_check.py"])
+
+plan("C16", "c16.py", "2-3 threads under a token-passing line scheduler x operation pairs/programs x 0-3 preemptions, MemoryLogger and FileDestination, on the real code",
+     "Proof under the lock axioms: every MemoryLogger method that touches messages / serializers / tracebackMessages / _failed_validations does so "
+     "holding self._lock (ghost permission obligations `token@...` at every read and write; the @exclusively wrapper is verified to run the body "
+     "inside `with self._lock` and release on every exit), and the monitor invariant len(messages) == len(serializers) with each message "
+     "recorded next to its own serializer is re-established at every exit of write / validate / serialize / reset / flushTracebacks including the "
+     "exceptional ones. FileDestination.__call__ issues a single file.write per message. Real interleavings are explored by the bounded driver only.",
+     "Trusted: threading.Lock mutual exclusion, atomicity of one file.write call, encoding assumptions.")
